@@ -1,5 +1,5 @@
 (** C02 — a purchase succeeds exactly when the seller's published terms are met. *)
-From FM Require Import BuySpec.
+From FM Require Import BuyChain.
 
 (** [terms_met w a l_id b_id]: listing [l_id] exists, is finalized (hence unsold), its
     expiration is not in the past ([now <= exp]; the property leaves the exact instant open, the
@@ -25,6 +25,18 @@ Theorem C02_successful_purchase_met_terms : forall w a fs l_id b_id fail,
   fs = [] /\ terms_met w a l_id b_id.
 Proof. exact step_buy_sound. Qed.
 Print Assumptions C02_successful_purchase_met_terms.
+
+(** And conversely on chain: with backed holdings (C01), a user-account buyer and honest CW20
+    tokens on both sides, a purchase whose terms are met succeeds as a transaction — every
+    royalty payment and the flushed fee are payable, covered and dispatched. *)
+Theorem C02_purchase_meeting_terms_succeeds : forall w a l_id b_id,
+  good w -> reg_link w -> a <> self_addr w -> l_id < U64 -> b_id < U64 ->
+  terms_met w a l_id b_id ->
+  (forall kl l b, find_by_id l_id (listings (market w)) = Some (kl, l) -> find_key (a, b_id) (buckets (market w)) = Some b ->
+     Forall (fun c => kind w (fst c) = KCw20) (cw20 (for_sale l)) /\ Forall (fun c => kind w (fst c) = KCw20) (cw20 (funds b))) ->
+  ok (snd (step w (Exec a [] (BuyListing l_id b_id) None))) = true.
+Proof. exact step_buy_complete. Qed.
+Print Assumptions C02_purchase_meeting_terms_succeeds.
 
 (** Otherwise it is refused with no effect. *)
 Theorem C02_refused_no_effect : forall w o, ok (snd (step w o)) = false -> fst (step w o) = w.
